@@ -627,7 +627,105 @@ def judge_partition(J, text, toks):
     return out
 
 
+def reference_regex(toks, top=True):
+    """The language the README gives to a token sequence, written as a regex independently of the encoder: a literal
+    is its text, `/` a separator, `?` one and `*` any number of non-separator characters, an alternation the union of
+    its branches, a repetition its body m..n times, a tree wildcard at the top level zero or more complete components
+    with the separators next to it (encoder.tree_reference).  -> regex text | None (a shape without a crisp reference:
+    tree wildcard inside a branch, class)"""
+    from . import encoder
+    out = []
+    for i, tok in enumerate(toks):
+        t = strip(tok)
+        topo = strip(t.fields["topology"])
+        inner = strip(topo.fields["0"])
+        if topo.variant == "Leaf":
+            k = strip(inner.fields.get("0")) if inner.fields else None
+            if inner.variant == "Separator":
+                out.append("/")
+            elif inner.variant == "Literal":
+                text = strip(k.fields["text"])
+                if isinstance(text, StrB):
+                    text = text.concrete()
+                if not isinstance(text, str) or strip(k.fields["is_case_insensitive"]) is not False:
+                    return None
+                out.append("(?-i:" + rxc.escape(text) + ")")
+            elif inner.variant == "Wildcard":
+                if k.variant == "One":
+                    out.append("[^/]")
+                elif k.variant == "ZeroOrMore":
+                    out.append("[^/]*")
+                elif k.variant == "Tree":
+                    if not top:
+                        return None
+                    out.append("(?:" + encoder.tree_reference(i > 0, i + 1 < len(toks), strip(k.fields["has_root"]) is True) + ")")
+                else:
+                    return None
+            else:
+                return None
+        else:
+            b = strip(inner.fields["0"])
+            if inner.variant == "Concatenation":
+                r = reference_regex(list(strip(b.fields["0"]).items), top)
+                if r is None:
+                    return None
+                out.append(r)
+            elif inner.variant == "Alternation":
+                rs = []
+                for br in strip(b.fields["0"]).items:
+                    r = reference_regex([br], False)
+                    if r is None:
+                        return None
+                    rs.append(r)
+                out.append("(?:" + "|".join("(?:%s)" % r for r in rs) + ")")
+            elif inner.variant == "Repetition":
+                r = reference_regex([b.fields["token"]], False)
+                lo, hi = strip(b.fields["lower"]), strip(b.fields["upper"])
+                hi = strip(hi.fields["0"]) if isinstance(hi, Adt) and hi.variant == "Some" else None
+                if r is None or not isinstance(lo, int):
+                    return None
+                out.append("(?:%s){%d,%s}" % (r, lo, "" if hi is None else hi))
+            else:
+                return None
+    return "".join(out)
+
+
+def judge_semantics(J, text, toks):
+    """C01: the program emitted for the tree against the reference language of the expression."""
+    tree = J.tree(toks)
+    acc = _accepted(J, text, tree)
+    if acc is False:
+        return {"text": text, "status": "rejected"}
+    if acc is None:
+        return {"text": text, "status": "unanalysable", "what": "the rule checker's verdict"}
+    ref = reference_regex(toks)
+    if ref is None:
+        return {"text": text, "status": "other", "verdict": "no crisp reference"}
+    pat = J.pattern(tree)
+    if pat is None:
+        return {"text": text, "status": "unanalysable", "what": "encode::compile"}
+    ref = "(?s)^" + ref + "$"
+    try:
+        eq, only_pat, only_ref = rxc.difference_witness(pat, ref)
+        out = {"text": text, "pattern": pat, "verdict": "program %s" % pat}
+        if not eq and LOOSE_ROOTED_TREE in pat:
+            eq2, _a, _b = rxc.difference_witness(pat.replace(LOOSE_ROOTED_TREE, STRICT_ROOTED_TREE, 1), ref)
+            if eq2:
+                out.update(status="explained", explained_by="rooted-first-tree-encoding", example=only_pat if only_pat is not None else only_ref)
+                return out
+        out["status"] = "sound" if eq else "unsound"
+        if not eq:
+            out["why"] = ("the program matches `%s`, the expression does not" % only_pat) if only_pat is not None else (
+                "the expression matches `%s`, the program does not" % only_ref)
+            out["reference"] = ref
+        return out
+    except rx.RxError as e:
+        return {"text": text, "status": "unanalysable", "what": "a program text: %s" % e}
+
+
 def judge_query(J, query, text, toks):
+    if query == "semantics":
+        return judge_semantics(J, text, toks)
     if query == "accepted":
         return {"text": text, "status": "accepted", "accepted": J.accepted(J.tree(toks))}
     if query == "partition":
@@ -708,6 +806,7 @@ def judge_all(F, tier, jobs=None, query="exhaustive"):
     entries, seen = [], set()
     flavours = {"text": ("general", "literal"), "root": ("rooted",), "partition": ("general", "rooted", "literal"),
                 "depth": ("general", "pairs", "nested"), "exhaustive": ("general", "pairs", "nested"),
+                "semantics": ("general", "rooted", "literal", "pairs", "nested"),
                 "accepted": ("general", "rooted", "literal", "pairs", "nested")}.get(query, ("general",))
     builders = [b for fl in flavours for b in catalogue(tier, fl)]
     for build in builders:
@@ -794,7 +893,8 @@ GROUP_CEILINGS = {
     ("partition", "rooted-through-a-branch/postfix-rooted", "thorough"): 8,
 }
 # the attribution to the known C01 encoding finding has a ceiling too
-EXPLAINED_CEILINGS = {("partition", "rooted-first-tree-encoding", "quick"): 251, ("partition", "rooted-first-tree-encoding", "thorough"): 251}
+EXPLAINED_CEILINGS = {("partition", "rooted-first-tree-encoding", "quick"): 251, ("partition", "rooted-first-tree-encoding", "thorough"): 251,
+                      ("semantics", "rooted-first-tree-encoding", "quick"): 285, ("semantics", "rooted-first-tree-encoding", "thorough"): 285}
 
 
 def group_of(query, r):
@@ -858,6 +958,7 @@ def report(F, R, rule, tier):
 
 
 QUERY_TEXT = {
+    "semantics": ("compiles to the %s", "encode::compile"),
     "partition": ("partitions into %s", "token::Tokenized::partition"),
     "depth": ("reports the depth variance %s", "token::Token::variance"),
     "text": ("reports the text variance %s", "token::Token::variance"),
@@ -895,8 +996,8 @@ def report_query(F, R, rule, tier, query, floor_total=5000, floor_decided=200):
         if ceiling is None or len(rs) > ceiling:
             R.fail(rule, "group-grew:explained-by:" + cause, "%d expressions are attributed to `%s`, %s" % (
                 len(rs), cause, "no ceiling is recorded" if ceiling is None else "at most %d were counted on the pinned tree" % ceiling), where)
-        R.fail(rule, "explained-by:" + cause, "%d expression(s) deviate only because of a defect recorded elsewhere (%s), e.g. `%s` (the glob and "
-               "its partition differ on `%s`)" % (len(rs), cause, rs[0]["text"], rs[0].get("example")), where)
+        R.fail(rule, "explained-by:" + cause, "%d expression(s) deviate only because of a defect recorded elsewhere (%s), e.g. `%s` (differs on `%s`)" % (
+                   len(rs), cause, rs[0]["text"], rs[0].get("example")), where)
     for k, v in sorted(counts.items()):
         R.count("catalogue[%s]" % k, v)
     R.note("%s catalogue (%s tier): %d expressions, %s%s" % (query, tier, len(res), counts, " (from the cache of this tree state)" if cached else ""))
